@@ -190,6 +190,7 @@ def check_assumptions(prop, props_ok):
     printed = re.findall(r'^\s*Print Assumptions\s+(\w+)\s*\.', src_nc, flags=re.M)
     if not props_ok:
         return [(n, False, 'not compiled') for n in names]
+    os.makedirs(os.path.join(BUILD, 'tmp'), exist_ok=True)
     rc, out = sh('timeout 600 coqc -Q theories ClasticV -w -notation-overridden,-deprecated-syntactic-definition '
                  '-o %s/tmp/%s.vo theories/Props/%s.v 2>&1' % (BUILD, prop, prop), cwd=COQ, timeout=700)
     if rc != 0:
